@@ -1108,6 +1108,162 @@ def socks_partial_jobs():
     return [[(n, e)] for n in (0, 1, 2, 3, 4, 7, 10) for e in ('listener-close+conn-close', 'conn-close', 'server-close', 'abort', 'cut')]
 
 
+# ------------------------------------------------------------------ a jump host: the channel is carried over a second SSH connection
+class Greeter(End):
+    """a destination that speaks first (SMTP, SSH, ... banners)"""
+    greeting = b''
+
+    def connection_made(self, transport):
+        End.connection_made(self, transport)
+        if self.greeting:
+            transport.write(self.greeting)
+
+
+class RecTCP(asyncssh.SSHTCPSession):
+    def __init__(self, greeting=b''):
+        self.data, self.eof, self.lost, self.chan, self.greeting = b'', False, False, None, greeting
+
+    def connection_made(self, chan):
+        self.chan = chan
+
+    def session_started(self):
+        if self.greeting:
+            self.chan.write(self.greeting)
+
+    def data_received(self, data, datatype):
+        self.data += data
+
+    def eof_received(self):
+        self.eof = True
+        return True
+
+    def connection_lost(self, exc):
+        self.lost = True
+
+
+JUMP_GREETING = b'220 upstream speaks first\r\n'
+
+
+def jump_case(kind, upstream, speaks_first, whole):
+    """client -> jump host -> upstream server: the jump host answers the client's direct-tcpip (or
+    direct-streamlocal) request by handing back its own client connection to the upstream server.  The destination
+    behind the upstream server may greet first; chunks are delivered one write at a time or everything queued at
+    once (`whole`).  What each end wrote arrives at the other end exactly once, in order, and EOF follows it."""
+    loop = P.fresh(0)
+    P.install_wire_labels()
+    viol = []
+    ends = []
+    ups = []
+    greeting = JUMP_GREETING if speaks_first else b''
+    try:
+        def mk_b():
+            e = Greeter('B', ends)
+            e.greeting = greeting
+            return e
+
+        class Up(P.RecServer):
+            def connection_requested(self, dest_host, dest_port, orig_host, orig_port):
+                if upstream == 'session':
+                    r = RecTCP(greeting)
+                    ups.append(r)
+                    return r
+                return True
+
+            def unix_connection_requested(self, dest_path):
+                if upstream == 'session':
+                    r = RecTCP(greeting)
+                    ups.append(r)
+                    return r
+                return True
+        holder = {}
+
+        class Jump(P.RecServer):
+            def connection_requested(self, dest_host, dest_port, orig_host, orig_port):
+                return holder['uc']
+
+            def unix_connection_requested(self, dest_path):
+                return holder['uc']
+        kw = dict(keepalive_interval=0)
+        ckw = dict(known_hosts=None, username='u', password='pw', client_keys=None, agent_path=None, config=None,
+                   kex_algs=['curve25519-sha256'], keepalive_interval=0)
+
+        async def setup():
+            await loop.create_server(mk_b, 'b.example', 80)
+            await loop.create_unix_server(mk_b, '/vdest')
+            await asyncssh.listen('up.example', 22, server_factory=lambda: Up({}), server_host_keys=[P.key('c20-up')], **kw)
+            await asyncssh.listen('jump.example', 22, server_factory=lambda: Jump({}), server_host_keys=[P.key('c20-jump')], **kw)
+            holder['uc'] = await asyncssh.connect('up.example', 22, **ckw)
+            return await asyncssh.connect('jump.example', 22, **ckw)
+        st = loop.create_task(setup())
+        loop.flush_all()
+        if not st.done():
+            raise Livelock('jump world setup pending')
+        c = st.result()
+        a = RecTCP()
+        if kind == 'tcp':
+            ot = loop.create_task(c.create_connection(lambda: a, 'b.example', 80))
+        else:
+            ot = loop.create_task(c.create_unix_connection(lambda: a, '/vdest'))
+        loop.flush_all(whole_queue=whole)
+        if not ot.done() or ot.exception() is not None:
+            viol.append(('jump-open-failed', repr(ot.exception()) if ot.done() else 'pending'))
+            return viol
+        b = ups[0] if upstream == 'session' and ups else (ends[0] if ends else None)
+        if b is None:
+            viol.append(('jump-no-destination', 'nothing was connected behind the upstream server'))
+            return viol
+
+        def bwrite(data):
+            (b.chan if upstream == 'session' else b.t).write(data)
+
+        def beof():
+            (b.chan if upstream == 'session' else b.t).write_eof()
+        want_a = greeting
+        if a.data != want_a:
+            viol.append(('jump-greeting-lost', 'the destination greeted with %r; the client has %r' % (want_a, a.data)))
+        a.chan.write(b'request-1')
+        loop.flush_all(whole_queue=whole)
+        bwrite(b'answer-1')
+        bwrite(b'answer-2')
+        loop.flush_all(whole_queue=whole)
+        want_a += b'answer-1answer-2'
+        a.chan.write_eof()
+        loop.flush_all(whole_queue=whole)
+        bwrite(b'last')
+        beof()
+        loop.flush_all(whole_queue=whole)
+        want_a += b'last'
+        if a.data != want_a:
+            viol.append(('jump-data-altered', 'client end received %r, the destination wrote %r' % (a.data, want_a)))
+        if b.data != b'request-1':
+            viol.append(('jump-data-altered', 'destination received %r, the client wrote %r' % (b.data, b'request-1')))
+        if not a.eof and not a.lost:
+            viol.append(('jump-eof-lost', 'the destination half-closed; the client end saw no EOF'))
+        if not b.eof and not b.lost:
+            viol.append(('jump-eof-lost', 'the client half-closed; the destination saw no EOF'))
+        if loop.unretrieved():
+            viol.append(('loop-exception', repr(loop.exc_log[0].get('exception') or loop.exc_log[0].get('message'))[:200]))
+    except Livelock as exc:
+        viol.append(('livelock', str(exc)))
+    finally:
+        P.done(loop)
+    return viol
+
+
+def jump_worker(job):
+    acc = core.Acc()
+    for case in job:
+        viol = jump_case(*case)
+        acc.add(core.digest(('jump',) + tuple(case)), transitions=8)
+        for k, d in viol:
+            acc.violation('forward:%s:jump:%s-%s' % (k, case[0], case[1]), '%s ; case=%r' % (d, case), {'kind': 'jump', 'case': list(case)})
+    return acc
+
+
+def jump_jobs():
+    return [[(k, u, sf, wh)] for k in ('tcp', 'unix') for u in ('service', 'session') for sf in (False, True) for wh in (False, True)]
+
+
 # ------------------------------------------------------------------ payload pipelined behind a SOCKS request
 def socks_request(w):
     host = w.dest[0].encode()
@@ -1305,6 +1461,7 @@ def main(tier, seed):
     acc.merge(core.pmap(socks_partial_worker, socks_partial_jobs()))
     acc.merge(core.pmap(reuse_worker, reuse_jobs()))
     acc.merge(core.pmap(socks_pipelined_worker, socks_pipelined_jobs(tier)))
+    acc.merge(core.pmap(jump_worker, jump_jobs()))
     rule = ('forwarding kinds {local, remote, local path, remote path, SOCKS5, SOCKS4, SOCKS4a} x 9 scripted '
             'conversations (duplex writes incl. 300 bytes, half-close in each order, close by either end, EOF before '
             'any data); at every point the explorer may deliver any pending pipe, run the next application action '
@@ -1318,7 +1475,9 @@ def main(tier, seed):
             '(remote, local, mixed; dynamic or fixed ports) on one connection: each relays to its own destination, '
             'closing one leaves the other working, both are released at the end; SOCKS5/4/4a request with 15 payload '
             'bytes pipelined behind it x every way of cutting the stream into 1 or 2 chunks (3 in thorough) and byte-at-a-time: '
-            'the destination receives the payload exactly once')
+            'the destination receives the payload exactly once; jump host (connection_requested hands back a client '
+            'connection to an upstream server) x {TCP, UNIX} x destination {service, session} x greets first or not x '
+            'chunk delivery {per write, everything queued}: both directions arrive once, in order, then EOF')
     return core.finish(PROP, tier, seed, 'model_checking', acc, t0, rule,
                        {'exploration_execs': n_a, 'permission_cases': n_b, 'socks_cases': n_c, 'listen_cases': acc.evaluations - n_a - n_b - n_c},
                        assumptions=['TCP endpoints A and B are virtual transports; listening sockets are real '
@@ -1340,6 +1499,8 @@ def replay(rep):
         acc = reuse_worker([tuple(r['case'])])
     elif r['kind'] == 'socks-pipelined':
         acc = socks_pipelined_worker([[(r['case'][0], tuple(r['case'][1]))]])
+    elif r['kind'] == 'jump':
+        acc = jump_worker([[tuple(r['case'])]])
     elif r['kind'] == 'socks-partial':
         acc = socks_partial_worker([tuple(r['case'])])
     elif r['kind'] == 'handler':
